@@ -193,9 +193,14 @@ def key_mod3(x):
     return leafsum(x) % 3
 
 
+def idx0(x):
+    """what a non-callable key 0 means: x[0]"""
+    return x[0]
+
+
 FUNCS = {f.__name__: f for f in (inc, dbl, neg, pair, tsum, size, wrap, add2, cnt, poly, is_even, lt3,
                                  acc_add, acc_max, acc_count, acc_rs, key_self, key_mod2,
-                                 key_mod3)}
+                                 key_mod3, idx0)}
 
 
 class Boom(Exception):
